@@ -448,6 +448,7 @@ class Interp:
         self._len_source = {}
         self.ext_summaries = {}   # "urllib.parse.unquote" -> fn(interp, pos, kw, node)
         self.hole_free_of = ""    # characters the symbolic holes are assumed not to contain
+        self._mod_busy = set()
         self.vfs = None           # scenario mode: {path name: MemFile content}; open()/unlink act on it
         self.construct_real = set()   # package classes whose constructor is evaluated (their __init__ run on a fresh object)
         self.construct_helpers = True # ...and every package class that is not one of the domain classes below (helper objects)
@@ -680,6 +681,8 @@ class Interp:
                 items = list(it.keys())
             elif isinstance(it, (StreamVal, HostIter)):
                 items = it      # consumed lazily, one item per pass (a break leaves the rest in place)
+            elif self._object_iter(it, st) is not None:
+                items = self._object_iter(it, st, run=True)
             elif isinstance(it, (Opaque, RepList)):
                 self.trace.events.append(("loop-opaque", it, st))
                 items = [Opaque("%s[]" % getattr(it, "name", "rep"), "obj")]
@@ -979,12 +982,28 @@ class Interp:
                             return self._mod_objs[key]
                         except Unsupported:
                             pass
+                    done_ = False
                     if isinstance(tl, ast.Assign) and isinstance(tl.value, ast.Call) and not tl.value.args and not tl.value.keywords:
                         # NAME = PackageClass(): an instance, so that its methods dispatch
                         d_ = self.proj.dotted(tl.value.func, mod, None)
-                        if d_ in self.proj.classes:
+                        if d_ in self.proj.classes and d_ in DOMAIN_CLASSES:
                             o_ = Opaque(node.id, d_.split(".")[-1])
                             o_.attrs["__module_object__"] = True
+                            done_ = True
+                    if not done_ and isinstance(tl, ast.Assign) and len(tl.targets) == 1 and isinstance(tl.targets[0], ast.Name) and key not in self._mod_busy:
+                        # any other module-level value the folder cannot represent (an instance of a helper class, a name
+                        # built from os.getpid(), ...): evaluated once, here; a bare unknown object keeps its name identity
+                        self._mod_busy.add(key)
+                        try:
+                            n_ev = len(self.trace.events)
+                            v_ = self.eval(tl.value, {"__module__": modname})
+                            del self.trace.events[n_ev:]
+                            if not (isinstance(v_, (Opaque, ModVal)) and not getattr(v_, "attrs", None)) and not isinstance(v_, Sym):
+                                o_ = v_
+                        except (Unsupported, RaiseEx):
+                            pass
+                        finally:
+                            self._mod_busy.discard(key)
                     self._mod_objs[key] = o_
                 return self._mod_objs[key]
         if node.id in ("str", "int", "list", "tuple", "dict", "set", "bytes", "float", "bool", "object"):
@@ -1230,6 +1249,33 @@ class Interp:
         raise Unsupported("binary %s on %r, %r at line %s" % (type(op).__name__, a, b, getattr(node, "lineno", "?")))
 
     def percent(self, fmt, arg):
+        if isinstance(arg, dict) or hasattr(arg, "as_dict"):
+            import re as _re0
+            mapping = arg if isinstance(arg, dict) else arg.as_dict()
+            out0 = []
+            for p in fmt.parts:
+                if not isinstance(p, str):
+                    out0.append(p)
+                    continue
+                i = 0
+                for m_ in _re0.finditer(r"%\((\w+)\)([0 #+-]*\d*)([sdrxX])|%%", p):
+                    out0.append(p[i:m_.start()])
+                    i = m_.end()
+                    if m_.group(0) == "%%":
+                        out0.append("%")
+                        continue
+                    if m_.group(1) not in mapping:
+                        raise RaiseEx("KeyError", m_.group(1), None)
+                    v_ = mapping[m_.group(1)]
+                    spec_ = m_.group(2) + m_.group(3)
+                    if spec_ in ("s", "d", "r"):
+                        out0.append(self.to_str(v_))
+                    elif isinstance(v_, (int, str)) and not isinstance(v_, bool):
+                        out0.append(("%" + spec_) % v_)
+                    else:
+                        out0.append(Sym("fmt(%s,%s)" % (_nm(v_), spec_), "str", True))
+                out0.append(p[i:])
+            return AStr(out0).simplify()
         args = list(arg) if isinstance(arg, tuple) else [arg]
         out = []
         k = 0
@@ -1883,6 +1929,35 @@ class Interp:
                 del self.trace.events[n_ev:]
         return cache[k.qual]
 
+    def _object_iter(self, v, node, run=False):
+        """An object of a package class that defines __iter__: what iterating it yields (the generator is evaluated when
+        the iteration starts)."""
+        if not (isinstance(v, Opaque) and v.attrs and v.kind not in ("obj", "iter", "list", "dict", "set")):
+            return None
+        m_ = self._class_method(v.kind, "__iter__")
+        if m_ is None:
+            return None
+        if not run:
+            return m_
+        r_ = self.summaries[m_.qual](self, [], {}, node) if m_.qual in self.summaries else self.call_func(m_, [], {}, self_obj=v, node=node)
+        if isinstance(r_, (list, tuple)):
+            return GenList(r_)
+        if r_ is v:
+            nx = self._class_method(v.kind, "__next__")
+            if nx is None:
+                raise Unsupported("__iter__ of %r returns itself but the class has no __next__" % (v,))
+
+            def gen():
+                while True:
+                    try:
+                        yield self.call_func(nx, [], {}, self_obj=v, node=node)
+                    except RaiseEx as e:
+                        if e.exc.split(".")[-1] == "StopIteration":
+                            return
+                        raise
+            return HostIter(gen(), "iter(%s)" % v.name)
+        return r_
+
     def _class_of_kind(self, kind):
         cs = [c for q, c in self.proj.classes.items() if q.split(".")[-1] == kind]
         return cs[0] if len(cs) == 1 else None
@@ -2042,12 +2117,18 @@ class Interp:
                 e2[n_] = v_
             e2.update(kw)
             return self.eval(fn.node.body, e2)
+        if isinstance(fn, Opaque) and fn.attrs and fn.kind not in ("obj", "iter", "list", "dict", "set"):
+            m_ = self._class_method(fn.kind, "__call__")
+            if m_ is not None:
+                return self.call_func(m_, pos, kw, self_obj=fn, node=node)
         if isinstance(fn, (Opaque, Sym, ModVal)):
             self.trace.events.append(("call-opaque", fn, pos, kw, node))
             return Opaque("%s()" % _nm(fn), "obj")
         raise Unsupported("call of %r at line %s" % (fn, node.lineno))
 
     def call_type(self, name, pos, kw, node):
+        if name in ("set", "frozenset", "dict", "list", "tuple") and pos and self._object_iter(pos[0], node) is not None:
+            pos = [self._object_iter(pos[0], node, run=True)] + list(pos[1:])
         if name in ("set", "frozenset", "dict") and pos and isinstance(pos[0], (StreamVal, HostIter)):
             pos = [list(pos[0])] + list(pos[1:])
         if name == "int":
@@ -2165,6 +2246,30 @@ class Interp:
         raise Unsupported("constructor %s" % name)
 
     def call_builtin(self, name, pos, kw, node, env):
+        if name in ("any", "all", "sum", "sorted", "max", "min", "enumerate", "zip", "map", "filter", "iter", "next", "reversed") and pos:
+            k0 = 1 if name in ("map", "filter") else 0
+            for k_ in range(k0, len(pos)):
+                if self._object_iter(pos[k_], node) is not None and not (name == "next" and self._class_method(pos[k_].kind, "__next__") is not None):
+                    pos = list(pos)
+                    pos[k_] = self._object_iter(pos[k_], node, run=True)
+        if name == "next" and pos and isinstance(pos[0], Opaque) and pos[0].attrs and self._class_method(pos[0].kind, "__next__") is not None:
+            try:
+                return self.call_func(self._class_method(pos[0].kind, "__next__"), [], {}, self_obj=pos[0], node=node)
+            except RaiseEx as e:
+                if e.exc.split(".")[-1] == "StopIteration" and len(pos) > 1:
+                    return pos[1]
+                raise
+        if name == "type" and len(pos) == 1:
+            v0 = pos[0]
+            if isinstance(v0, (str, AStr)) or (isinstance(v0, Sym) and v0.kind in ("str", "char")):
+                return TypeVal("str")
+            for py_, nm_ in ((bool, "bool"), (int, "int"), (float, "float"), (list, "list"), (tuple, "tuple"), (dict, "dict")):
+                if type(v0) is py_:
+                    return TypeVal(nm_)
+            if v0 is None:
+                return TypeVal("NoneType")
+            if isinstance(v0, Opaque) and v0.attrs and self._class_of_kind(v0.kind) is not None:
+                return TypeVal(self._class_of_kind(v0.kind).qual)
         if name in ("any", "all", "sum", "sorted", "max", "min") and pos and isinstance(pos[0], (StreamVal, HostIter)):
             pos = [list(pos[0])] + list(pos[1:])        # consumed, as the builtin does
         if name == "super":
@@ -2286,6 +2391,8 @@ class Interp:
             a_, b_ = pos
             first_wins = self.decide(ACond(">=" if name == "max" else "<=", a_, b_, node), node)
             return a_ if first_wins else b_
+        if name == "sorted" and len(pos) == 1 and isinstance(pos[0], Opaque) and pos[0].kind in ("set", "list") and not kw:
+            return Opaque(pos[0].name, "list", pos[0].origin)          # the same elements, in some order
         if name in ("sorted", "max", "min") and len(pos) == 1 and isinstance(pos[0], (list, tuple, dict)) and set(kw) <= {"key", "reverse"}:
             items = list(pos[0])
             keyf = kw.get("key")
@@ -2671,6 +2778,27 @@ class Interp:
         if isinstance(base, CounterVal) and attr == "most_common":
             ranked = sorted(base.items(), key=lambda kv: -kv[1])
             return ranked[:pos[0]] if pos and isinstance(pos[0], int) else ranked
+        if isinstance(base, dict) and attr == "move_to_end" and pos:
+            if pos[0] not in base:
+                raise RaiseEx("KeyError", repr(pos[0]), node)
+            last = pos[1] if len(pos) > 1 else kw.get("last", True)
+            v_ = base.pop(pos[0])
+            if last:
+                base[pos[0]] = v_
+            else:
+                rest = list(base.items())
+                base.clear()
+                base[pos[0]] = v_
+                base.update(rest)
+            return None
+        if isinstance(base, dict) and attr == "popitem":
+            if not base:
+                raise RaiseEx("KeyError", "popitem(): dictionary is empty", node)
+            last = pos[0] if pos else kw.get("last", True)
+            k_ = list(base)[-1 if last else 0]
+            return (k_, base.pop(k_))
+        if isinstance(base, (list, tuple, dict)) and attr == "__contains__" and len(pos) == 1:
+            return self.contains(base, pos[0], node)
         if isinstance(base, dict):
             if attr == "get":
                 hit = self._sym_lookup(base, pos[0], node) if pos else None
@@ -2726,7 +2854,7 @@ class Interp:
             if r_ is not NotImplemented:
                 return r_
         # ---- opaque receivers
-        if isinstance(base, (Opaque, Sym)) and isinstance(base.attrs.get(attr), (Callback, FuncVal, LambdaVal, Builtin, TypeVal)):
+        if isinstance(base, (Opaque, Sym)) and (isinstance(base.attrs.get(attr), (Callback, FuncVal, LambdaVal, Builtin, TypeVal, BoundMethod)) or hasattr(base.attrs.get(attr), "ai_invoke")):
             # an attribute holding a callable (self.transform)
             return self.call(base.attrs[attr], pos, kw, node, env)
         if isinstance(base, Opaque) and base.attrs and base.name not in ("self", "cls") and base.kind not in ("obj", "iter", "list", "dict", "set"):
